@@ -1,4 +1,5 @@
 import RemocModel.Conn.Model
+import RemocModel.Conn.WaitsInv
 import RemocModel.Props.C01
 set_option linter.unusedSimpArgs false
 
@@ -17,11 +18,31 @@ What a proof about a model can carry here:
 * `prefix_after_fault` — whatever the cut point, what receivers obtained is a prefix of what was sent
   (C01's theorem holds for *every* schedule, in particular for every truncated one).
 
-Partial, and named: that each kind of API wait (credit waiter, port queue, connect response,
-listener queue, closed-notifier, allocator waiter) is woken with an error when the dispatcher is gone
-is a fact about `Weak`/`oneshot`/closed-queue links in the runtime; it is covered by the exhaustive
-cut-point enumeration of the correspondence run (every item index × direction × fault kind), which
-decides "hangs nothing" with the quiescence detector under a virtual clock.
+On the wait/link model of one endpoint (`Conn/Waits.lean`: every kind of API wait, the link it is parked
+on, explicit wake-ups, the clock):
+
+* `terminated_all_error` — in every reachable state in which the dispatcher has terminated and no
+  internal label is enabled, no wait on a dispatcher-owned link is pending (the only waits that can be
+  left are allocator / semaphore waits, which the dispatcher does not own, and only while no unit is
+  free), and every wait that returned after termination returned what the classification table
+  `okAfterTerm` allows;
+* `terminated_releases_ports` — after termination the dispatcher holds no port number (the allocator exception
+  above is about port numbers held by the user);
+* `later_ops_error` — a wait on a dispatcher-owned link started after termination returns at its first
+  poll, with a result of the table; `later_user_owned_ok` — on the allocator / semaphore it is served at
+  once when a unit is free;
+* `api_after_termination` — the table for the chmux API calls (each call = its sequence of waits);
+* `termination_bounded` — while `run` has not returned: at most `timeout` of virtual time has passed since
+  the inbound direction went silent, no time passes at all once a fault has been shown, and in both
+  cases `terminate` is enabled and its result is an error (`fault_or_silence_terminates`:
+  a quiescent state cannot have an unanswered fault or an expired timeout).
+
+The links are *read off the source* (see the table in `Conn/Waits.lean`): that the real
+`Weak`/`oneshot`/closed-queue objects are owned and dropped as modelled is a runtime fact.  It is covered
+by the correspondence: every cut point × direction × fault kind on the real endpoints (raw ports:
+`mux faultsweep`; typed channels, remote calls, mirrors, locks, lazy values: `faultup sweep`), with the
+quiescence detector deciding "hangs nothing", the clock deciding "bounded", and the error class of every
+call that was pending at or started after the failure compared with the tables proved here.
 -/
 
 namespace Remoc.Conn
@@ -99,6 +120,252 @@ example : timedOut 1000 (0 + 100) (arrive [500, 1000, 1500, 2000, 2500, 3000] [0
   decide
 example : gapsLe 500 0 [500, 1000, 1500, 2000, 2500, 3000] := by simp [gapsLe]
 example : timedOut 1000 100 (arrive [500] [700]) 2200 = true := by decide
+
+/-! ## every wait ends, with the error of the table -/
+
+/-- **Fail-stop of the API waits.**  Dispatcher terminated, nothing internal left to do: (1) whatever is
+still parked is parked on the allocator or the connect-request semaphore (not owned by the dispatcher)
+and lacks units there; in particular nothing is parked on credits, queues, responses, listener queues
+or closed-notifiers; (2) every wait that returned after the termination returned what `okAfterTerm`
+allows for its link: `SendError::ChMux`, `RecvError::ChMux`, `ConnectError::ChMux` (`Rejected` when the
+remote listener had been dropped), `ListenerError::MultiplexerError`, or something that had been
+queued / answered before (an item, a request, an answer, a clean end marker), or `()` for the two waits
+without error channel. -/
+theorem terminated_all_error (s : WState) (h : WReachable s) (ht : s.term.isSome = true) (hq : WQuiescent s) :
+    (∀ w ∈ s.pending, ∃ l, s.links[w.link]? = some l ∧ l.kind.userOwned = true ∧ pollLink l w.need = none) ∧
+    (∀ r ∈ s.returned, r.afterTerm = true → okAfterTerm r.kind r.res = true) := by
+  obtain ⟨hn, hd, hr⟩ := winv_reachable h
+  refine ⟨?_, hr⟩
+  intro w hw
+  obtain ⟨idx, hidx⟩ := List.mem_iff_getElem?.mp hw
+  obtain ⟨l, hl, hdisj⟩ := hn w hw
+  have hstep := hq (.wake idx) rfl
+  have hwk : w.woken = false := by
+    cases hwoken : w.woken with
+    | false => rfl
+    | true =>
+      exfalso
+      simp only [wstep, hidx, hwoken, hl] at hstep
+      cases hp : pollLink l w.need <;> simp [hp] at hstep
+  have hnone : pollLink l w.need = none := by
+    rcases hdisj with h1 | h1
+    · simp [hwk] at h1
+    · exact h1
+  refine ⟨l, hl, ?_, hnone⟩
+  cases hu : l.kind.userOwned with
+  | true => rfl
+  | false =>
+    exfalso
+    exact pollLink_dead_ne_none w.need (hd ht l (List.mem_of_getElem? hl) hu) hu hnone
+
+/-- Corollary: with no wait parked on the allocator or the semaphore, nothing at all is pending. -/
+theorem terminated_nothing_pending (s : WState) (h : WReachable s) (ht : s.term.isSome = true) (hq : WQuiescent s)
+    (hno : ∀ w ∈ s.pending, ∀ l, s.links[w.link]? = some l → l.kind.userOwned = false) : s.pending = [] := by
+  cases hp : s.pending with
+  | nil => rfl
+  | cons w ws =>
+    exfalso
+    have hw : w ∈ s.pending := by simp [hp]
+    obtain ⟨l, hl, hu, _⟩ := (terminated_all_error s h ht hq).1 w hw
+    rw [hno w hw l hl] at hu
+    cases hu
+
+/-- **The allocator exception is not the dispatcher's doing.**  After termination the dispatcher holds no
+port number any more (the keys of its port table, the queued connect requests and `Accepted` events were
+dropped with it and every allocator waiter was woken): an allocator wait that is still parked at
+quiescence lacks port numbers that the *user* holds (port numbers allocated and not yet used, or held by
+waits that are parked in the same way). -/
+theorem terminated_releases_ports (s : WState) (h : WReachable s) (ht : s.term.isSome = true) :
+    ∀ l ∈ s.links, l.tableHeld = 0 := noTable_reachable h ht
+
+theorem giveBack_pending_ids (s : WState) (o : Option Nat) : (giveBack s o).pending.map Wait.id = s.pending.map Wait.id := by
+  unfold giveBack
+  cases o with
+  | none => rfl
+  | some i =>
+    simp only
+    split
+    · simp [wakeOn, List.map_map, Function.comp_def]
+      intro a _
+      split <;> rfl
+    · rfl
+
+theorem giveBack_returned (s : WState) (o : Option Nat) : (giveBack s o).returned = s.returned := by
+  unfold giveBack; cases o <;> simp <;> split <;> rfl
+
+/-- **Operations started after the termination fail at once.**  A wait on a dispatcher-owned link whose
+first poll happens after `terminate` is never parked: the same step records its result, and the result is
+in the classification table. -/
+theorem later_ops_error (s : WState) (h : WReachable s) (ht : s.term.isSome = true) (k i need : Nat)
+    (holds : Option Nat) (l : Link) (hl : s.links[i]? = some l) (hu : l.kind.userOwned = false) :
+    ∃ s' r, wstep s (.start k i need holds) = some s' ∧
+      s'.pending.map Wait.id = s.pending.map Wait.id ∧
+      s'.returned = s.returned ++ [⟨k, l.kind, r, true, true⟩] ∧ okAfterTerm l.kind r = true := by
+  obtain ⟨_, hd, _⟩ := winv_reachable h
+  have ha : l.alive = false := hd ht l (List.mem_of_getElem? hl) hu
+  cases hp : pollLink l need with
+  | none => exact absurd hp (pollLink_dead_ne_none need ha hu)
+  | some rl =>
+    obtain ⟨r, l'⟩ := rl
+    have hstep : wstep s (.start k i need holds) =
+        some (giveBack { s with links := s.links.set i l',
+                                returned := s.returned ++ [⟨k, l.kind, r, s.term.isSome, s.term.isSome⟩] } holds) := by
+      simp only [wstep, hl, hp]
+    refine ⟨_, r, hstep, ?_, ?_, pollLink_table hp (fun _ => ha)⟩
+    · rw [giveBack_pending_ids]
+    · rw [giveBack_returned]; simp [ht]
+
+/-- On the links the dispatcher does not own (allocator, semaphore) an operation started after the
+termination is served at once when units are free: it is not an error, the operation goes on to its next
+wait (which is on a dispatcher-owned link, see `ApiOp.waits`). -/
+theorem later_user_owned_ok (s : WState) (k i need : Nat) (holds : Option Nat) (l : Link)
+    (hl : s.links[i]? = some l) (hu : l.kind.userOwned = true) (hav : need ≤ l.avail) :
+    ∃ s', wstep s (.start k i need holds) = some s' ∧
+      s'.returned = s.returned ++ [⟨k, l.kind, .ok, s.term.isSome, s.term.isSome⟩] := by
+  have hp : pollLink l need = some (.ok, { l with avail := l.avail - need }) := by
+    unfold pollLink
+    cases hk : l.kind <;> simp [hk, LinkKind.userOwned] at hu ⊢ <;> exact hav
+  have hstep : wstep s (.start k i need holds) =
+      some (giveBack { s with links := s.links.set i { l with avail := l.avail - need },
+                              returned := s.returned ++ [⟨k, l.kind, .ok, s.term.isSome, s.term.isSome⟩] } holds) := by
+    simp only [wstep, hl, hp]
+  exact ⟨_, hstep, by rw [giveBack_returned]⟩
+
+def WaitRes.isErr : WaitRes → Bool
+  | .err _ => true
+  | _ => false
+
+/-- **The table for the chmux API** (what lean/Driver/Fault.lean compares real results with): every call
+started after the termination ends with the error of its first failing wait; the calls without error
+channel (`Sender::closed`, `Receiver::close`, `Connect::sent`, `Request::reject`) resolve, and
+`PortAllocator::allocate` hands out a port number as long as one is free. -/
+theorem api_after_termination :
+    ApiOp.afterTerm .send = .err .sendChMux ∧ ApiOp.afterTerm .chunkSend = .err .sendChMux ∧
+    ApiOp.afterTerm .trySend = .err .sendChMux ∧ ApiOp.afterTerm .portConnect = .err .sendChMux ∧
+    ApiOp.afterTerm .recv = .err .recvChMux ∧ ApiOp.afterTerm .recvChunk = .err .recvChMux ∧
+    ApiOp.afterTerm .clientConnect = .err .connectChMux ∧ ApiOp.afterTerm .connectResponse = .err .connectChMux ∧
+    ApiOp.afterTerm .clientConnect true = .err .connectRejected ∧
+    ApiOp.afterTerm .accept = .err .listenerMux ∧ ApiOp.afterTerm .inspect = .err .listenerMux ∧
+    ApiOp.afterTerm .reqAccept = .err .listenerMux ∧
+    ApiOp.afterTerm .senderClosed = .unit ∧ ApiOp.afterTerm .recvClose = .unit ∧
+    ApiOp.afterTerm .connectSent = .unit ∧ ApiOp.afterTerm .reqReject = .unit ∧
+    ApiOp.afterTerm .allocate = .ok := by
+  simp [ApiOp.afterTerm, ApiOp.waits, outcomeAfterTerm, pollLink, deadLink, LinkKind.userOwned]
+
+/-- every call with an error channel fails -/
+theorem api_after_termination_err (op : ApiOp) (ld : Bool)
+    (hop : op ≠ .senderClosed ∧ op ≠ .recvClose ∧ op ≠ .connectSent ∧ op ≠ .reqReject ∧ op ≠ .allocate) :
+    (op.afterTerm ld).isErr = true := by
+  cases op <;> cases ld <;>
+    simp_all [ApiOp.afterTerm, ApiOp.waits, outcomeAfterTerm, pollLink, deadLink, LinkKind.userOwned, WaitRes.isErr]
+
+/-! ## bounded time -/
+
+/-- **Termination is bounded.**  While `run` has not returned: (1) at most `timeout` of virtual time has
+passed since the last frame, hence since the inbound direction went silent; (2) once the run loop has been
+shown a fault no time passes at all; (3) in both situations `terminate` is enabled, and its result is an
+error (not `Ok`, not still running). -/
+theorem termination_bounded (s : WState) (h : WReachable s) (ht : s.term = none) :
+    (∀ tf, s.silentSince = some tf → s.now ≤ tf + s.timeout) ∧
+    (s.faulted.isSome = true → ∀ d, wstep s (.tick d) = none) ∧
+    ((s.faulted.isSome = true ∨ s.now - s.lastRx ≥ s.timeout) →
+      ∃ s' r, wstep s .terminate = some s' ∧ s'.term = some r ∧ r ≠ .ok ∧ r ≠ .running) := by
+  obtain ⟨i1, i2, i3, i4, i5, i6, i7⟩ := clockInv_reachable h
+  refine ⟨?_, ?_, ?_⟩
+  · intro tf htf
+    have := i2 tf htf
+    have := i3 ht
+    omega
+  · intro hf d
+    cases hfe : s.faulted with
+    | none => simp [hfe] at hf
+    | some e => simp [wstep, ht, hfe]
+  · intro hc
+    have hcause : ∃ e, cause s = some e := by
+      unfold cause
+      rcases hc with hf | hsil
+      · cases hfe : s.faulted with
+        | none => simp [hfe] at hf
+        | some e => exact ⟨e, rfl⟩
+      · cases hfe : s.faulted with
+        | some e => exact ⟨e, rfl⟩
+        | none => exact ⟨.timeout, by simp [silence_times_out s.timeout s.lastRx s.now hsil]⟩
+    obtain ⟨e, he⟩ := hcause
+    have hr := runLoop_work_append s.evs e i5 (cause_isFault i4 he)
+    have hstep : wstep s .terminate =
+        some { s with term := some (runLoop (s.evs ++ [e])), links := s.links.map killLink,
+                      pending := wakeAll s.pending } := by
+      simp [wstep, ht, he]
+    exact ⟨_, runLoop (s.evs ++ [e]), hstep, rfl, hr.1, hr.2⟩
+
+/-- Corollary in the "judged at quiescence" form: a reachable quiescent state in which a fault has been
+shown, or in which the inbound direction has been silent for the timeout, has terminated, with an error. -/
+theorem fault_or_silence_terminates (s : WState) (h : WReachable s) (hq : WQuiescent s)
+    (hc : s.faulted.isSome = true ∨ ∃ tf, s.silentSince = some tf ∧ s.now ≥ tf + s.timeout) :
+    ∃ r, s.term = some r ∧ r ≠ .ok ∧ r ≠ .running := by
+  obtain ⟨i1, i2, i3, i4, i5, i6, i7⟩ := clockInv_reachable h
+  cases ht : s.term with
+  | some r => exact ⟨r, rfl, i7 r ht⟩
+  | none =>
+    exfalso
+    have hc' : s.faulted.isSome = true ∨ s.now - s.lastRx ≥ s.timeout := by
+      rcases hc with hf | ⟨tf, htf, hge⟩
+      · exact Or.inl hf
+      · have := i2 tf htf
+        right; omega
+    obtain ⟨s', _, hs', _⟩ := (termination_bounded s h ht).2.2 hc'
+    rw [hq .terminate rfl] at hs'
+    cases hs'
+
+/-! non-vacuity: an endpoint with one link of every dispatcher-owned kind plus the allocator; a send waits
+for credits (0), a receive and an accept wait on empty queues, a connect waits for its answer, `closed()`
+is parked, an allocator wait lacks a free port; the inbound direction stalls, the timeout passes, the
+dispatcher terminates, everybody is polled. -/
+def exLinks : List Link :=
+  [ { kind := .credits }, { kind := .portQueue }, { kind := .listenQ }, { kind := .connectResp },
+    { kind := .hangup }, { kind := .evq }, { kind := .alloc, tableHeld := 1 } ]
+
+def exInit : WState := { links := exLinks, timeout := 1000 }
+
+def exRun : List Label :=
+  [ .start 10 0 1 none, .start 11 1 1 none, .start 12 2 1 none, .start 13 3 1 none, .start 14 4 1 none,
+    .start 15 5 1 none, .start 16 6 1 none, .rx, .tick 400, .rx, .stall, .tick 1000, .terminate,
+    .wake 0, .wake 0, .wake 0, .wake 0, .wake 0, .wake 0, .wake 0,
+    -- operations started after the termination
+    .start 20 0 1 none, .start 21 1 1 none, .start 22 4 1 none ]
+
+example : WInit exInit := by simp [WInit, exInit]
+
+/-- the run is accepted, ends with nothing pending, the dispatcher result is `timeout` at 1000 after the
+stall, and the results are those of the table (the allocator wait is served by the port number the table held) -/
+example : (wrun exInit exRun).map (fun s => (s.pending.length, s.term, s.now, s.returned.map (fun r => (r.id, r.res)))) =
+    some (0, some Res.timeout, 1400,
+      [(10, .err .sendChMux), (11, .err .recvChMux), (12, .err .listenerMux), (13, .err .connectChMux),
+       (14, .unit), (15, .err .sendChMux), (16, .ok),
+       (20, .err .sendChMux), (21, .err .recvChMux), (22, .unit)]) := by
+  decide
+
+/-- the hypotheses of `terminated_all_error` are met by the end state of this run: it is reachable,
+terminated and quiescent -/
+example : ∃ s, wrun exInit exRun = some s ∧ WReachable s ∧ s.term.isSome = true ∧ WQuiescent s := by
+  have h : ∃ s, wrun exInit exRun = some s ∧ s.pending = [] ∧ s.term.isSome = true := by
+    cases hr : wrun exInit exRun with
+    | none => exact absurd hr (by decide)
+    | some s =>
+      refine ⟨s, rfl, ?_, ?_⟩
+      · have : (wrun exInit exRun).map (fun s => decide (s.pending = [])) = some true := by decide
+        rw [hr] at this; simpa using this
+      · have : (wrun exInit exRun).map (fun s => s.term.isSome) = some true := by decide
+        rw [hr] at this; simpa using this
+  obtain ⟨s, hr, hp, ht⟩ := h
+  exact ⟨s, hr, wreachable_wrun (WReachable.init _ (by simp [WInit, exInit])) hr, ht,
+    quiescent_of_nothing_pending hp ht⟩
+
+/-- before `terminate`, with the timeout expired, the state is not quiescent: `terminate` is enabled -/
+example : (wrun exInit (exRun.take 12)).map (fun s => (wstep s .terminate).isSome) = some true := by decide
+
+/-- and time cannot pass beyond the deadline while the dispatcher is running -/
+example : (wrun exInit (exRun.take 12)).map (fun s => (wstep s (.tick 1)).isSome) = some false := by decide
 
 end Remoc.Conn
 
